@@ -139,5 +139,148 @@ theorem volt_refines_spec_partial (c : Comp α) (hc : c.Phys) (vi : List α) (io
           have hp : 0 < |vi0| - 2 * c.rs * io := by simpa using hpos
           rw [← h.1, abs_of_pos hp]; ring
 
+
+/-- Current law, every kind but the mux: on a live, unflagged supply the sweeps' current law is the
+    documented one (loads P/|V|, |I|, |V|/R; converter |vo·Io/(Vi·eff)| or iq at no load; regulator /
+    switch Io+ig; rectifier Io resp. Io+ig / iq; series losses and sources Io; sleep current when inactive). -/
+theorem curr_refines_spec (c : Comp α) (hc : c.Phys) (vi : List α) (io : α)
+    (ph : PhaseCtx α) (off : List Bool) (hoff : off0 off = false) (hmux : c.kind ≠ .pmux) :
+    c.solvInpCurr vi io ph off = specIi c (vi.headD 0) io ph := by
+  have hiq := abs_of_nonneg hc.iq
+  have hiis := abs_of_nonneg hc.iis
+  unfold Comp.solvInpCurr specIi calcInpCurrent
+  generalize vi.headD 0 = vi0 at *
+  cases hk : c.kind <;> simp only [hk, hoff, Bool.or_false, nabs_eq_abs, hiq, hiis] <;>
+    first
+    | exact absurd hk hmux
+    | (split_ifs <;> simp_all)
+
+/-! ### B. the table rows are linked as the property says -/
+
+/-- **Row linkage.**  For a component with a single supply `p`, the row built by `solve()` shows
+    `Vin = Vout` of `p`'s row (both are `v p`), names `p` as its parent, and — when it has children —
+    `Iout = Σ` of the currents the children draw from it (`childCurr`); a leaf shows `Iout = 0`. -/
+theorem row_linkage (s : SSys α) (phase : String) (ta : α) (v i : Vec α) (st : St)
+    (n p : Nat) (nd : SNode α) (hnode : s.node? n = some nd) (hpar : nd.parents = [p]) (d : String) :
+    let r := (s.compRow phase ta v i st n d).1
+    r.vin = some (vget v p) ∧ r.vout = some (vget v n) ∧ r.iin = some (vget i n) ∧
+    r.parent = s.nameOf p ∧
+    r.iout = some (if nd.childs.isEmpty then 0 else s.childCurr n i v st) := by
+  intro r
+  have hr : r = (s.compRow phase ta v i st n d).1 := rfl
+  unfold SSys.compRow at hr
+  simp only [hnode, hpar, List.isEmpty_cons, Bool.false_eq_true, if_false, List.length_cons, List.length_nil,
+    List.head?_cons, Bool.not_false, Bool.true_and] at hr
+  have hpn : s.parentName n = s.nameOf p := by
+    unfold SSys.parentName; simp [hnode, hpar]
+  cases hpri : nd.comp.priInp [sget st p] [vget v p] <;>
+    simp [hr, hpri, hpn]
+
+/-- the row of a root (Source) shows its EMF side `v + rs·i` as Vin and its own current as Iout -/
+theorem row_root (s : SSys α) (phase : String) (ta : α) (v i : Vec α) (st : St)
+    (n : Nat) (nd : SNode α) (hnode : s.node? n = some nd) (hpar : nd.parents = []) (d : String) :
+    let r := (s.compRow phase ta v i st n d).1
+    r.vin = some (vget v n + nd.comp.rs * vget i n) ∧ r.vout = some (vget v n) ∧
+    r.iin = some (vget i n) ∧ r.iout = some (vget i n) ∧ r.parent = "" := by
+  intro r
+  have hr : r = (s.compRow phase ta v i st n d).1 := rfl
+  unfold SSys.compRow at hr
+  simp only [hnode, hpar, List.isEmpty_nil, if_true] at hr
+  simp [hr]
+
+/-- **Sweep = row.**  The voltage sweep feeds the law of node `n` exactly the `(Vin, Iout)` its table row
+    shows: the row's deviation from the law *is* the sweep residual. -/
+theorem sweep_args_are_row (s : SSys α) (phase : String) (ta : α) (v i : Vec α) (st : St)
+    (n p : Nat) (nd : SNode α) (hnode : s.node? n = some nd) (hpar : nd.parents = [p]) (d : String) :
+    s.fwdAt phase v i st n =
+      nd.comp.solvOutpVolt [vget v p] (if nd.childs.isEmpty then 0 else s.childCurr n i v st)
+        (nd.pconf.ctx phase) [sget st p] ∧
+    s.backAt phase v i st n =
+      nd.comp.solvInpCurr [vget v p] (if nd.childs.isEmpty then 0 else s.childCurr n i v st)
+        (nd.pconf.ctx phase) [sget st p] := by
+  unfold SSys.fwdAt SSys.backAt SSys.lawArgs
+  simp [hnode, hpar]
+
+/-! ### C. polarity: voltages are mirrored, currents are magnitudes -/
+
+/-- Pass-through kinds (series losses, switch) mirror: negating the input voltage negates the output
+    and leaves the input current unchanged. -/
+theorem mirror_passthrough (c : Comp α) (hk : c.kind = .rloss ∨ c.kind = .pswitch)
+    (vi io : α) (ph : PhaseCtx α) (off : List Bool) :
+    c.solvOutpVolt [-vi] io ph off = (c.solvOutpVolt [vi] io ph off).map (fun r => (-r.1, r.2)) ∧
+    c.solvInpCurr [-vi] io ph off = c.solvInpCurr [vi] io ph off := by
+  have hzn : isZ (-vi) = isZ vi := by
+    cases h : isZ vi
+    · exact (isZ_false_iff _).mpr (neg_ne_zero.mpr ((isZ_false_iff _).mp h))
+    · rw [(isZ_iff _).mp h]; simp [h, (isZ_iff vi).mp h]
+  have hsn : nsign (-vi) = -nsign vi := by
+    rcases lt_trichotomy vi 0 with h | h | h
+    · rw [nsign_of_neg h, nsign_of_pos (neg_pos.mpr h)]; ring
+    · subst h; simp
+    · rw [nsign_of_pos h, nsign_of_neg (neg_neg_of_pos h)]
+  unfold Comp.solvOutpVolt Comp.solvInpCurr calcInpCurrent
+  rcases hk with hk | hk <;> simp only [hk, List.headD_cons, hzn, nabs_eq_abs, abs_neg]
+  · refine ⟨?_, rfl⟩
+    by_cases hz : (isZ vi || off0 off) = true
+    · simp [hz, Except.map]
+    · simp only [hz, Bool.false_eq_true, if_false, hsn]
+      have e1 : -vi - c.rs * io * -nsign vi = -(vi - c.rs * io * nsign vi) := by ring
+      rw [e1]
+      have e2 : nsign (-(vi - c.rs * io * nsign vi)) = -nsign (vi - c.rs * io * nsign vi) := by
+        rcases lt_trichotomy (vi - c.rs * io * nsign vi) 0 with h | h | h
+        · rw [nsign_of_neg h, nsign_of_pos (neg_pos.mpr h)]; ring
+        · rw [h]; simp
+        · rw [nsign_of_pos h, nsign_of_neg (neg_neg_of_pos h)]
+      simp only [eqB_iff, e2]
+      by_cases he : nsign (vi - c.rs * io * nsign vi) = nsign vi
+      · have he' : -nsign (vi - c.rs * io * nsign vi) = -nsign vi := by rw [he]
+        simp [he, Except.map]
+      · have he' : ¬ (-nsign (vi - c.rs * io * nsign vi) = -nsign vi) := fun h => he (neg_injective h)
+        simp [he, Except.map]
+  · refine ⟨?_, trivial⟩
+    by_cases hz : (isZ vi || off0 off) = true
+    · simp [hz, Except.map]
+    · simp only [hz, Bool.false_eq_true, if_false]
+      have hne : vi ≠ 0 := by
+        intro e; apply hz; simp [(isZ_iff vi).mpr e]
+      by_cases hi : ph.inactive = true
+      · simp [hi, Except.map]
+      · simp only [hi, Bool.false_eq_true, if_false]
+        by_cases hp : (!decide (0 < |vi| - c.rs * io)) = true
+        · rw [if_pos hp, if_pos hp]; rfl
+        · rw [if_neg hp, if_neg hp]
+          rcases lt_or_gt_of_ne hne with h | h
+          · have h2 : ¬ (-vi < 0) := by linarith
+            rw [if_neg h2, if_pos h]; simp [Except.map]
+          · have h2 : -vi < 0 := by linarith
+            have h' : ¬ vi < 0 := by linarith
+            rw [if_pos h2, if_neg h']; simp [Except.map]
+
+/-- Regulated kinds (converter, regulator) follow the sign of their own `vo`, whatever the input
+    polarity; their input current does not depend on the input's sign either. -/
+theorem regulated_ignores_input_sign (c : Comp α) (hk : c.kind = .converter ∨ c.kind = .linreg)
+    (vi io : α) (ph : PhaseCtx α) (off : List Bool) :
+    c.solvOutpVolt [-vi] io ph off = c.solvOutpVolt [vi] io ph off ∧
+    c.solvInpCurr [-vi] io ph off = c.solvInpCurr [vi] io ph off := by
+  have hzn : isZ (-vi) = isZ vi := by
+    cases h : isZ vi
+    · exact (isZ_false_iff _).mpr (neg_ne_zero.mpr ((isZ_false_iff _).mp h))
+    · rw [(isZ_iff _).mp h]; simp [h, (isZ_iff vi).mp h]
+  unfold Comp.solvOutpVolt Comp.solvInpCurr linregV
+  rcases hk with hk | hk <;> simp only [hk, List.headD_cons, hzn, nabs_eq_abs, abs_neg]
+  · refine ⟨rfl, ?_⟩
+    by_cases hz : (isZ vi || isZ c.vo || off0 off) = true
+    · simp [hz]
+    · simp only [hz, Bool.false_eq_true, if_false]
+      by_cases hi : ph.inactive = true
+      · simp [hi]
+      · by_cases hio : isZ io = true
+        · simp [hi, hio]
+        · simp only [hi, hio, Bool.false_eq_true, if_false]
+          rw [show c.vo * io / (-vi * c.par.interp |io| |vi|) = -(c.vo * io / (vi * c.par.interp |io| |vi|)) by
+            rw [neg_mul, div_neg]]
+          exact abs_neg _
+  · exact ⟨trivial, trivial⟩
+
 end C01
 end SysLoss
